@@ -1,5 +1,6 @@
 import XsVerif.Driver.Util
 import XsVerif.Model.Lazy
+import XsVerif.Model.LazyLive
 import XsVerif.Driver.LazyUtil
 open Lean XsVerif.Driver XsVerif.Lazy
 
@@ -21,6 +22,28 @@ def handle (j : Json) : Except String Json := do
       | .error _ => fun _ => true
     return Json.mkObj [("yields", Json.arr ((iterRun d sel t).map fun p =>
       Json.arr #[Lean.toJson p.1, Json.str (kindStr p.2)]).toArray)]
+  | "iterdoc" =>
+    -- the repaired loop of XMLResource.iter (notes/fixes/C06-iter-document-order.patch)
+    let d ← getNat j "d"
+    let thin := (j.getObjValAs? Bool "thin").toOption.getD true
+    let sel : String → Bool := match j.getObjValAs? String "tag" with
+      | .ok tg => fun s => s == tg
+      | .error _ => fun _ => true
+    return Json.mkObj [("yields", Json.arr ((liRun thin d sel t).out.map fun p =>
+      Json.arr #[Lean.toJson p.1, Json.str (kindStr p.2)]).toArray)]
+  | "live" =>
+    -- iter_depth on the live tree: what is yielded at the moment it is yielded, pruning, size of _nsmaps
+    let d ← getNat j "d"
+    let mode ← getNat j "mode"
+    let thin := (j.getObjValAs? Bool "thin").toOption.getD true
+    let r := ldRun thin mode d t
+    return Json.mkObj [
+      ("yields", Json.arr (r.out.map fun y =>
+        Json.arr #[natArr (preorder y.elem), natArr y.inner, Lean.toJson y.nkeys]).toArray),
+      ("final", match ldFinal thin mode d t with
+        | some f => natArr (preorder f)
+        | none => Json.null),
+      ("nkeys", Lean.toJson r.tb.nkeys), ("fail", r.tb.fail)]
   | "iterdepth" =>
     return Json.mkObj [("yields", ancOut (iterDepthRun (← getNat j "mode") (← getNat j "d") t))]
   | "iterfind" =>
